@@ -103,3 +103,17 @@ pub fn hash_list_bad(a: &ListArr, child: &[u64], out: &mut [u64]) {
         }
     }
 }
+
+/// negative: fresh empty vector grown once with zeros
+pub fn good_fresh_resize(cols: &[Vec<Option<u64>>], n: usize) -> Vec<u64> {
+    let mut b = Vec::with_capacity(n);
+    b.resize(n, 0);
+    create_hashes(cols, 7, &mut b);
+    b
+}
+/// negative: reused buffer explicitly zero-filled
+pub fn good_fill(j: &mut Joiner, cols: &[Vec<Option<u64>>], n: usize) {
+    j.hashes_buffer.resize(n, 0);
+    j.hashes_buffer.fill(0);
+    create_hashes(cols, 7, &mut j.hashes_buffer);
+}
